@@ -16,7 +16,7 @@
     the configuration whose interface-up flags are computed from the session
     states at that moment. *)
 From Coq Require Import List NArith Bool.
-From Scion Require Import Lib.Check Model.BFD Model.Router.
+From Scion Require Import Lib.Check Model.BFD Model.Router Model.RouterOHP.
 Import ListNotations.
 Local Open Scope N_scope.
 
@@ -126,6 +126,47 @@ Definition no_up_check (now : N) (ing : ingress) (p : pkt) : result :=
 
 End Run.
 
+(** * One-hop packets (audit follow-up).  [processOHP] never calls [validateEgressUp]:
+    a one-hop packet leaving the AS is handed to [interfaces[first.ConsEgress]] whatever the
+    state of that link's session (model: Model/RouterOHP.v, which has no up check).  The union
+    of both branches of [processPkt] that forward data packets: *)
+Definition process_ohp_at (macq : N -> N -> N -> N -> N -> option (list N)) (c : cfg) (ls : links)
+           (ing : ingress) (p : pkt) : result :=
+  RouterOHP.process_ohp macq (cfg_at c ls) ing p.
+
+Inductive dpkt := DScion (now : N) (p : pkt) | DOhp (p : pkt).
+Definition is_ohp (d : dpkt) : bool := match d with DOhp _ => true | DScion _ _ => false end.
+
+Definition process_any (macq : N -> N -> N -> N -> N -> option (list N)) (c : cfg) (ls : links)
+           (ing : ingress) (d : dpkt) : result :=
+  match d with
+  | DScion now p => process_at macq c ls now ing p
+  | DOhp p => process_ohp_at macq c ls ing p
+  end.
+
+Inductive event2 := Ev2Bfd (l : N) (o : BFD.op) | Ev2Data (ing : ingress) (d : dpkt).
+Definition links_step2 (ls : links) (e : event2) : links :=
+  match e with Ev2Bfd l o => step_links ls l o | Ev2Data _ _ => ls end.
+Definition links_after2 (ls : links) (evs : list event2) : links := fold_left links_step2 evs ls.
+Fixpoint count_data2 (evs : list event2) : nat :=
+  match evs with
+  | [] => O
+  | Ev2Bfd _ _ :: t => count_data2 t
+  | Ev2Data _ _ :: t => S (count_data2 t)
+  end.
+Fixpoint run_history2 (macq : N -> N -> N -> N -> N -> option (list N)) (c : cfg) (ls : links)
+         (evs : list event2) : list result :=
+  match evs with
+  | [] => []
+  | Ev2Bfd l o :: t => run_history2 macq c (step_links ls l o) t
+  | Ev2Data ing d :: t => process_any macq c ls ing d :: run_history2 macq c ls t
+  end.
+
+(** the link a slow-path reply leaves over: always the link the request came in on
+    ([runSlowPathProcessor]: [egressLink := p.Link], no [IsUp] test) *)
+Definition reply_link (ing : ingress) (r : result) : option N :=
+  match r with SlowPath (SpScmp _ _ _) _ _ => Some (ing_link ing) | _ => None end.
+
 (** the slow-path request of [validateEgressUp] for a link that is down *)
 Definition down_type (f : iface) : N :=
   if scope_eqb (if_scope f) External then ScmpExternalInterfaceDown
@@ -210,7 +251,25 @@ Inductive hev :=
 | HBfd (l : N) (o : option (list N))   (* None = the detection time passed without a packet *)
        (up : option bool)              (* Link.IsUp() observed afterwards; None = not looked at (the packet only arms a short detection time right before the expiry that follows) *)
 | HPkt (now : N) (ing : ingress) (k : N)   (* k: index into the packets of the case *)
-       (impl : result) (fwd : option N) (reply : option (list N)).
+       (impl : result) (fwd : option N) (reply : option (list N))
+| HOhp (ing : ingress) (k : N)             (* one-hop packet (index k), no BFD upper layer *)
+       (impl : result) (fwd : option N)
+| HPktR (now : N) (ing : ingress) (k : N)  (* SCION-path packet whose slow-path reply is followed *)
+        (impl : result)
+        (rl : option N)                    (* link the reply was handed to (None: no reply) *)
+        (rl_up : bool).                    (* IsUp() of that link at that moment (recorded, not judged) *)
+
+(** the first clause of [c15_ok] alone: nothing is forwarded to another router over a link
+    whose session is not up *)
+Definition fwd_ok (c : cfg) (ls : links) (impl : result) (fwd : option N) : bool :=
+  match impl with
+  | Forward e _ None =>
+    iface_up ls (iface_of c e) &&
+    match fwd with Some l => (l =? 0) || link_up ls l | None => true end
+  | _ => true
+  end.
+
+Definition is_hohp (e : hev) : bool := match e with HOhp _ _ _ _ => true | _ => false end.
 
 Inductive case :=
 | CHist (c : cfg) (ss : list (N * N))         (* links with a session: (link id, configured remote discriminator) *)
@@ -251,6 +310,28 @@ Definition hev_step (c : cfg) (macs : list mac_entry) (pkts : list pkt) (ls : li
             reply_agree (reply_of c ing m) reply,
             c15_ok c ls ing (no_up_check macq c now ing p) impl fwd reply))
     end
+  | HOhp ing k impl fwd =>
+    match nthN pkts k with
+    | None => (ls, (false, true))
+    | Some p =>
+      let m := process_ohp_at (mac_lookup macs) c ls ing p in
+      (ls, (result_eqb m impl && option_eqb N.eqb (fwd_link c m) fwd,
+            (* the property, literally: this is where scion deviates (known finding
+               C15/ohp-ignores-link-state) *)
+            fwd_ok c ls impl fwd))
+    end
+  | HPktR now ing k impl rl _ =>
+    match nthN pkts k with
+    | None => (ls, (false, true))
+    | Some p =>
+      let macq := mac_lookup macs in
+      let m := process_at macq c ls now ing p in
+      (ls, (result_eqb m impl &&
+            match rl with Some l => option_eqb N.eqb (reply_link ing m) (Some l) | None => true end,
+            (* a reply the router originates goes back over the link the request came from,
+               whatever that link's session says: not "forwarding", see notes/C15.md *)
+            c15_ok c ls ing (no_up_check macq c now ing p) impl (fwd_link c impl) None))
+    end
   end.
 
 Fixpoint hist_check (c : cfg) (macs : list mac_entry) (pkts : list pkt) (ls : links)
@@ -279,6 +360,18 @@ Fixpoint with_model_obs (c : cfg) (macs : list mac_entry) (pkts : list pkt) (ls 
     | Some p => let m := process_at (mac_lookup macs) c ls now ing p in
                 HPkt now ing k m (fwd_link c m) (reply_of c ing m) :: with_model_obs c macs pkts ls t
     | None => HPkt now ing k impl fwd reply :: with_model_obs c macs pkts ls t
+    end
+  | HOhp ing k impl fwd :: t =>
+    match nthN pkts k with
+    | Some p => let m := process_ohp_at (mac_lookup macs) c ls ing p in
+                HOhp ing k m (fwd_link c m) :: with_model_obs c macs pkts ls t
+    | None => HOhp ing k impl fwd :: with_model_obs c macs pkts ls t
+    end
+  | HPktR now ing k impl rl up :: t =>
+    match nthN pkts k with
+    | Some p => let m := process_at (mac_lookup macs) c ls now ing p in
+                HPktR now ing k m (reply_link ing m) up :: with_model_obs c macs pkts ls t
+    | None => HPktR now ing k impl rl up :: with_model_obs c macs pkts ls t
     end
   end.
 
@@ -314,6 +407,18 @@ Fixpoint hist_diag (c : cfg) (macs : list mac_entry) (pkts : list pkt) (ls : lin
   | HPkt now ing k _ _ _ :: t =>
     match nthN pkts k with
     | Some p => (1 :: result_code (process_at (mac_lookup macs) c ls now ing p))
+                :: hist_diag c macs pkts ls t
+    | None => [99] :: hist_diag c macs pkts ls t
+    end
+  | HOhp ing k _ _ :: t =>
+    match nthN pkts k with
+    | Some p => (2 :: result_code (process_ohp_at (mac_lookup macs) c ls ing p))
+                :: hist_diag c macs pkts ls t
+    | None => [99] :: hist_diag c macs pkts ls t
+    end
+  | HPktR now ing k _ _ _ :: t =>
+    match nthN pkts k with
+    | Some p => (3 :: result_code (process_at (mac_lookup macs) c ls now ing p))
                 :: hist_diag c macs pkts ls t
     | None => [99] :: hist_diag c macs pkts ls t
     end
